@@ -2,6 +2,7 @@
 
 use crate::framework::Family;
 
+pub mod client_blocking;
 pub mod peers;
 pub mod registry_tree;
 pub mod stream_ctl;
@@ -12,6 +13,7 @@ pub fn all() -> &'static [Family] {
         let mut v = Vec::new();
         v.extend(stream_ctl::families());
         v.extend(peers::families());
+        v.extend(client_blocking::families());
         v.extend(registry_tree::families());
         v
     })
